@@ -238,7 +238,7 @@ func (u *Universe) Zero(t types.Type) Term {
 		case "Int":
 			return mk("0")
 		case "Str":
-			return mk("str.emptystr")
+			return mk("s.empty")
 		}
 	case *types.Pointer, *types.Map, *types.Chan, *types.Signature:
 		return mk("0")
